@@ -164,7 +164,7 @@ class Srv:
 
 def pairs(s):
     """a setting: None | (kind, v) with kind c (`constant`) k (`k2`) p (`tbl`) q (`tbl2`) | ('m', ((key, v), ...)) -> [(key, v)]"""
-    if s is None:
+    if s is None or isinstance(s, str):
         return []
     if s[0] == "m":
         return [(int(k), int(v)) for k, v in s[1]]
@@ -200,6 +200,9 @@ def do(srv, label, op, client=None):
             body["settings"] = settings_of(op[1])
         r = c.post("/run", json=body)
         return ("ran" if r.status_code == 200 else f"http{r.status_code}"), (r.status_code, canon_body(r.data))
+    if k == "q" and len(op) > 1:            # ("q", "scenarios"): GET /scenarios on the server-level object
+        r = c.get("/scenarios")
+        return ("names" if r.status_code == 200 else f"http{r.status_code}"), (r.status_code, canon_body(r.data))
     if k == "q":
         r = c.post("/equations", json={"scenario_manager": SM, "scenario": SC})
         return ("names" if r.status_code == 200 else f"http{r.status_code}"), (r.status_code, canon_body(r.data))
@@ -213,7 +216,10 @@ def do(srv, label, op, client=None):
         r = c.post(f"/{uid}/begin-session", json=body)
         tok = "started" if r.status_code == 200 else None
     elif k == "s":
-        r = c.post(f"/{uid}/run-step", json=setting_body(op[1]))
+        if len(op) > 2:                     # ("s", None, "nobody"): run-step WITHOUT a JSON body
+            r = c.post(f"/{uid}/run-step")
+        else:
+            r = c.post(f"/{uid}/run-step", json=setting_body(op[1]))
         tok = None
         if r.status_code == 200:
             try:
@@ -226,7 +232,7 @@ def do(srv, label, op, client=None):
         elif srv.ad and r.status_code == 500 and b"Internal Server Error" in r.data:
             tok = "saveerr"             # no session: the handler fails while externalising the (absent) session state
     elif k == "r":
-        r = c.get(f"/{uid}/session-results")
+        r = c.get(f"/{uid}/flat-session-results" if len(op) > 1 else f"/{uid}/session-results")     # ("r", "flat")
         tok = None
         if r.status_code == 200:
             d = json.loads(r.data)
@@ -445,9 +451,9 @@ def rand_setting(rng, none_weight=1):
         return None
     r -= none_weight
     if r < 4:
-        return ("ckpq"[r], rng.range(2, 9))
+        return ("ckpq"[r], 0 if rng.chance(1, 8) else rng.range(2, 9))          # falsy 0 / 0.0 among the values (wave 7)
     ks = rng.shuffle([0, 1, 2, 3])[:2]
-    return ("m", tuple((k, rng.range(2, 9)) for k in sorted(ks)))
+    return ("m", tuple((k, 0 if rng.chance(1, 8) else rng.range(2, 9)) for k in sorted(ks)))
 
 
 def gen_list(rng, long, created=False, points_heavy=False, unpersisted=False, absent=False):
@@ -495,6 +501,9 @@ def gen_list(rng, long, created=False, points_heavy=False, unpersisted=False, ab
     ops.append(("r",))
     if rng.chance(1, 8) and not created:
         ops = ops[1:]                    # no begin-session at all
+    # wave 7: the flat results endpoint and run-step without a request body
+    ops = [("r", "flat") if (o == ("r",) and rng.chance(1, 3)) else ("s", None, "nobody") if (o == ("s", None) and rng.chance(1, 4)) else o
+           for o in ops]
     return ops
 
 
@@ -508,7 +517,7 @@ def gen_own(rng):
     ops = []
     for _ in range(rng.range(1, 3)):
         r = rng.below(6)
-        ops.append(("R", rand_setting(rng, 1)) if r < 4 else ("q",) if r < 5 else ("a",))
+        ops.append(("R", rand_setting(rng, 1)) if r < 4 else rng.choice([("q",), ("q", "scenarios")]) if r < 5 else ("a",))
     return ops
 
 
@@ -898,6 +907,23 @@ def _run(chk, srvs):
         dist["settings_for_unlisted_elements"] = dist.get("settings_for_unlisted_elements", 0) + any(len(o) > 1 and any(k != 0 for k, _ in pairs(o[1])) for _, o in seq)
         dist["begin_session_settings"] += any(o[0] == "b" and len(o) > 1 and o[1] is not None for _, o in seq)
         dist["ghost_id_requests"] += sum(1 for i, _ in seq if i == GHOST)
+        rows = dist.setdefault("coverage_rows", {})
+        for i, o in seq:
+            keys = [("endpoint " + {"b": "begin-session", "s": "run-step", "r": "session-results", "e": "end-session", "k": "keep-alive",
+                                    "x": "stop-instance", "t": "timeout sweep", "c": "start-instance", "R": "/run", "q": "/equations", "a": "/agents"}[o[0]])]
+            if o == ("r", "flat"): keys = ["endpoint flat-session-results"]
+            if o == ("q", "scenarios"): keys = ["endpoint /scenarios"]
+            if o[0] == "s" and len(o) > 2: keys.append("run-step without request body")
+            if o[0] in ("b", "s", "R") and len(o) > 1 and o[1] is not None:
+                ps = pairs(o[1])
+                lvl = {"b": "session-level", "s": "step-level", "R": "/run"}[o[0]]
+                for k, v in ps:
+                    keys.append(f"{lvl} setting: {KEYS[k][0]} {'listed' if k == 0 else 'unlisted'}")
+                    if v == 0: keys.append("setting value 0 (falsy)")
+                if len(ps) > 1: keys.append("two elements in one setting")
+            keys.append(f"style {st}" + (" + adapter" if ad else ""))
+            for k in keys:
+                rows[k] = rows.get(k, 0) + 1
         wrote, gone_w = set(), False
         for i, o in seq:
             if len(o) > 1 and o[1] is not None and i >= 0: wrote.add(i)
@@ -965,7 +991,7 @@ def _run(chk, srvs):
     def unl(w=0):
         x = rand_setting(rng, w)
         return x if (x is None or x[0] != "c" or rng.chance(1, 3)) else (rng.choice(["k", "q"]), x[1])
-    for n in range(50 if chk.quick else 400):
+    for n in range(44 if chk.quick else 400):
         ad = rng.chance(1, 2)
         A = [("b", unl())] + [("s", unl(1)) for _ in range(rng.range(1, 2))]
         if rng.chance(1, 3): A += [("e",), ("b", unl(1)), ("s", unl(1))]
@@ -999,7 +1025,7 @@ def _run(chk, srvs):
                 if chk.quick and rng.chance(2, 3):
                     continue
                 add_case(st, ad, lists, own, seq, "exhaustive_merges")
-    for n in range(110 if chk.quick else 1000):
+    for n in range(95 if chk.quick else 1000):
         k = rng.range(2, 3)
         st = rng.choice(["fresh", "sharedBase", "files", "files"])
         ncreated = rng.below(2) if rng.chance(1, 2) else 0
@@ -1035,7 +1061,7 @@ def _run(chk, srvs):
     # concurrent handlers for different instances
     conc = {"cases": 0, "overlapped": 0, "by_schedule": {}}
     conc_first = {}
-    for n in range(40 if chk.quick else 320):
+    for n in range(34 if chk.quick else 320):
         lists, pa, pb, schedule = gen_conc_case(rng)
         st = rng.choice(["fresh", "sharedBase", "files"])
         ad = rng.chance(1, 3)
